@@ -400,6 +400,11 @@ def compare(A, B, step, sn, info):
                 c.add("no-result-row/%s" % t2, element=tag)
                 continue
             for col in resA.columns:
+                if col_kind(col) == "va":
+                    # the angle of a (numerically) zero phasor is arbitrary
+                    mag = col.replace("va_", "vm_").replace("_degree", "_pu")
+                    if mag in resA.columns and mag in resB.columns and min(abs(_nz(rowA[mag])), abs(_nz(resB.at[ib, mag]))) < 1e-6:
+                        continue
                 if col in resB.columns and (t, col) not in skip_cols:
                     c.num(t if t2 == t else "%s-as-%s" % (t, t2), "%s.%s" % (tag, col), rowA[col], resB.at[ib, col], col_kind(col))
     # ---- machines: p of PV gens individually, the rest as a sum per electrical node of the original
